@@ -49,7 +49,10 @@ def obs_series(arr):
         vals = [obs_value(x) for x in arr.ravel().tolist()]
     else:
         vals = canon(arr.ravel().tolist())
-    return {'dtype': str(arr.dtype), 'shape': list(arr.shape), 'v': vals}
+    out = {'dtype': str(arr.dtype), 'shape': list(arr.shape), 'v': vals}
+    if not arr.flags.writeable:
+        out['read-only'] = True  # (a series the user can no longer assign into is not the series it was)
+    return out
 
 
 def obs(x):
